@@ -641,10 +641,28 @@ def huge_requests(work, b, pid, seed, out, jobs):
     with open(os.path.join(tempfile.gettempdir(), "verif-huge.lock"), "w") as lk:
         fcntl.flock(lk, fcntl.LOCK_EX)
         try:
-            with ThreadPoolExecutor(max_workers=3) as ex:
+            avail = 0
+            for ln in open("/proc/meminfo"):
+                if ln.startswith("MemAvailable:"):
+                    avail = int(ln.split()[1]) // (1024 * 1024)        # GiB
+            nworkers = min(3, avail // 6)
+            if nworkers < 1:
+                out.notes.append("requests of 4 GiB + n bytes SKIPPED: only %d GiB of memory available" % avail)
+                return []
+            with ThreadPoolExecutor(max_workers=nworkers) as ex:
                 res = list(ex.map(lambda sc: run_drv(b, sc.text(), timeout=3000), scs))
         finally:
             fcntl.flock(lk, fcntl.LOCK_UN)
+    # a driver that could not get its memory (mmap refused: exit 3, or killed by the OOM killer) says
+    # nothing about the library: that request is skipped and the evidence says so
+    kept = []
+    for j, sc, ln in zip(jobs, scs, res):
+        last = ln[-1] if ln else ""
+        if '"op": "driver"' in last and ('"sig": 3,' in last or '"sig": -9,' in last):
+            out.notes.append("request of 4 GiB + n bytes SKIPPED (%s/%s cap %d): the driver could not get the memory" % (j[1], j[0], j[2]))
+        else:
+            kept.append((j, sc, ln))
+    jobs, scs, res = [k[0] for k in kept], [k[1] for k in kept], [k[2] for k in kept]
     lines = []
     for j, sc, ln in zip(jobs, scs, res):
         lines += conform_lines(work, pid, seed, ln, sc.text(), out, tag="-huge-%s-%s-%d" % (j[1], j[0], j[2]))
